@@ -2,7 +2,7 @@
 EXTENDS Pool, Json, FiniteSetsExt
 (* Bounded configurations of Pool.tla and the behaviour generator for direction A. *)
 
-A(i, o, f) == [ins |-> i, outs |-> o, fee |-> f, shift |-> 0, lock |-> 0, nrd |-> FALSE]
+A(i, o, f) == [ins |-> i, outs |-> o, fee |-> f, shift |-> 0, lock |-> 0, nrd |-> FALSE, feat |-> "plain", kord |-> 0]
 \* The universe (Trunk = 5, FeeBase = 1000; weights: 1in/1out = 25, 1in/2out = 46, 2in/1out = 26).
 \*  1 A  coinbase 1 -> 100,101   exact fee        2 B  coinbase 2 -> 102          over
 \*  3 C  100 -> 103 (child of A)                  4 D  101,102 -> 104 (child of A and B)
@@ -24,24 +24,32 @@ A(i, o, f) == [ins |-> i, outs |-> o, fee |-> f, shift |-> 0, lock |-> 0, nrd |-
 \* 29    second NRD kernel (spends coinbase 4)
 \* 30    coinbase 3 (mature) + coinbase 4 (immature): as 24, with the commitments in the other byte order (in 24 the
 \*       immature one comes last among the inputs, in 30 first)
+\* 31    coinbase 0 -> 147, exact fee, the OUTPUT flagged COINBASE     32  coinbase 0 -> 148 with a COINBASE kernel (fee 0, as every
+\*       coinbase kernel; {2, 32} pays the minimum of the aggregate): both fail standalone validation (verify_features)
+\* 33    coinbase 3 -> 149, kernel locked to height 8, sorting AFTER the kernel of 10 (locked to 7) in an aggregate
+\* 34    coinbase 2 -> 150, kernel locked to height 8, sorting BEFORE the kernel of 10
 AtomsFull ==
   <<A({1}, {100, 101}, 46000), A({2}, {102}, 50000), A({100}, {103}, 25000), A({101, 102}, {104}, 26000),
     A({1}, {105}, 75000), A({3}, {106}, 24999),
     [A({3}, {107}, 37500) EXCEPT !.shift = 1], [A({3}, {108}, 50000) EXCEPT !.shift = 1],
-    A({4}, {109}, 25000), [A({0}, {110}, 25000) EXCEPT !.lock = 7],
+    A({4}, {109}, 25000), [A({0}, {110}, 25000) EXCEPT !.lock = 7, !.kord = 2],
     A({3}, 111..121, 235000), A({103}, {122}, 100000),
     [A({0}, {123}, 25000) EXCEPT !.nrd = TRUE], A({5}, {124}, 30000), A({0}, {125}, 1000),
     A({2}, {126}, 250000), A({126}, {127}, 25000), A({127}, {128}, 100000), A({0}, {129}, 75000),
     A({0}, {102}, 50000), A({3}, {126}, 250000),
     A({0}, {130}, 25000), A({4, 100}, {131}, 26000), A({0, 5}, {132}, 26000), A({5, 102}, {133}, 26000),
     A({0}, 134..138, 109000), A({3}, 139..143, 109000), A({0, 2}, {144}, 26000),
-    [A({4}, {145}, 25000) EXCEPT !.nrd = TRUE], A({3, 4}, {146}, 26000)>>
+    [A({4}, {145}, 25000) EXCEPT !.nrd = TRUE], A({3, 4}, {146}, 26000),
+    [A({0}, {147}, 25000) EXCEPT !.feat = "cbout"], [A({0}, {148}, 0) EXCEPT !.feat = "cbker"],
+    [A({3}, {149}, 25000) EXCEPT !.lock = 8, !.kord = 3], [A({2}, {150}, 25000) EXCEPT !.lock = 8, !.kord = 1]>>
 \* {2, 6}, {16, 7}, {2, 15}: an UNDER-paying atom aggregated with a well-paying one; the aggregate as a whole pays enough
 \* (74999 >= 50000; (250000 + 37500) >> 1 >= 50000; 51000 >= 50000), the remainder left after deaggregating the pooled
 \* partner does not
 \* {22, 8}: exact payer without shift + exact payer with shift 1: under-pays as an aggregate; {2, 9}, {2, 10}: an immature
 \* spend / a locked kernel inside an aggregate; {1, 3, 12}, {1, 2, 19}: three kernels, two of them pooled separately
-SubsFull == {{a} : a \in 1..30} \cup {{1, 2}, {1, 3}, {3, 12}, {2, 8}, {2, 6}, {16, 7}, {2, 15}}
+\* {2, 32}, {1, 31}: a coinbase kernel / a coinbase-flagged output inside an aggregate; {10, 33}, {10, 34}: two height-locked
+\* kernels with different lock heights (7 and 8) in one transaction, the lower lock sorting first / last
+SubsFull == {{a} : a \in 1..34} \cup {{2, 32}, {1, 31}, {10, 33}, {10, 34}} \cup {{1, 2}, {1, 3}, {3, 12}, {2, 8}, {2, 6}, {16, 7}, {2, 15}}
             \cup {{22, 8}, {2, 9}, {2, 10}, {1, 3, 12}, {1, 2, 19}}
 
 \* small universe for exhaustive checking: parent with two outputs, second parent, child, two-parent child,
@@ -140,10 +148,24 @@ Scripts == <<
   <<Sub({26}), Sub({27}), Sub({1}), Sub({2}), Sub({3}), Blk({26, 27}), Sub({12})>>,
   \* 21 (NRD enabled, Trunk 7): NRD kernels are refused while the head's header version is below 4 (heights 7, 8), admitted
   \*     from height 9 on as fluff and as stem, mined, and the stem one fluffed
-  <<Sub({13}), StemSub({29}), Sub({1}), Blk({}), Blk({1}), Sub({13}), StemSub({29}), Blk({13}), Sub({29})>>
+  <<Sub({13}), StemSub({29}), Sub({1}), Blk({}), Blk({1}), Sub({13}), StemSub({29}), Blk({13}), Sub({29})>>,
+  \* 22: the lock height of a transaction is the MAXIMUM of its kernels' lock heights: aggregates of 10 (locked to 7) with 33 / 34
+  \*     (locked to 8; kernel of 33 after, of 34 before that of 10) - neither half pooled, so nothing is deaggregated - are
+  \*     refused below both locks (next height 6), BETWEEN the locks (next height 7: 10 alone would be admitted), as fluff, as
+  \*     stem and with the public pool over capacity; admitted, offered for mining and mined once the next height is 8
+  <<Sub({10, 33}), StemSub({10, 34}), Sub({33}), Blk({}),
+    Sub({10, 33}), Sub({10, 34}), StemSub({10, 33}), StemSub({10, 34}), StemSub({34}),
+    Sub({1}), Sub({3}), Sub({9}), Sub({10, 33}), Blk({1, 3, 9}),
+    StemSub({10, 34}), Sub({10, 33}), Blk({10, 33})>>,
+  \* 23: transactions that fail standalone validation for their FEATURES - an output flagged COINBASE (31), a COINBASE kernel
+  \*     riding with a well-paying kernel ({2, 32}) - are refused as fluff, as stem, with declared input features, with a
+  \*     non-empty pool, as the remainder of a deaggregation ({1, 31} with 1 pooled) and with the pool over capacity
+  <<Sub({31}), StemSub({31}), SubF({31}, "declared"), Sub({2, 32}), StemSub({2, 32}), Sub({32}),
+    Sub({1}), Sub({31}), Sub({1, 31}), StemSub({31}), StemSub({2, 32}),
+    Sub({16}), Sub({8}), Sub({31}), Sub({2, 32}), StemSubF({31}, "mislabelled")>>
 >>
 \* which scripts a configuration runs (its constants have to fit the script)
-ScriptSet == IF NrdEnabled THEN {21} ELSE IF MineWeight > MaxBlockWeight THEN {20} ELSE IF ShortReorg THEN 15..19 ELSE 1..14
+ScriptSet == IF NrdEnabled THEN {21} ELSE IF MineWeight > MaxBlockWeight THEN {20} ELSE IF ShortReorg THEN 15..19 ELSE (1..14) \cup {22, 23}
 ScriptForm == LET a == Scripts[script][nsteps + 1] IN a.form
 
 \* tmpl: what mine_block::get_block has to build its template on in this state (Pool!TemplateFor: the BODY head, also while
